@@ -170,12 +170,23 @@ class MediaList(cssutils.util._NewListBase):
     def __setitem__(self, index, newMedium):
         """Overwriting ListSeq.__setitem__
 
-        Any duplicate items are **not yet** removed.
+        As with :meth:`appendMedium` a medium which is used already is removed
+        from its old position and ``all`` replaces any other media.
         """
-        # TODO: remove duplicates?
         newMedium = self.__prepareset(newMedium)
         if newMedium:
+            newmt = normalize(newMedium.mediaType)
             self._seq[index] = (newMedium, 'MediaQuery', None, None)
+            newitem = self._seq[index]
+
+            for i in reversed(range(len(self._seq))):
+                item = self._seq[i]
+                if item.type == 'MediaQuery' and item is not newitem:
+                    if 'all' == newmt or (
+                        # might be empty
+                        newmt and newmt == normalize(item.value.mediaType)
+                    ):
+                        del self._seq[i]
 
     def appendMedium(self, newMedium):
         """Add the `newMedium` to the end of the list.
